@@ -47,6 +47,9 @@ CHECKS = {
  "C11": ("fault_enumeration", "exhaustive single-fault enumeration over the token string and over every byte of the three AKEP2 messages between a real client and server, judged by an independent HKDF+HMAC token verifier",
          "E-FAULT", "20 token variants (other key, unknown/traversal/empty key id, missing/non-string/empty sub, expiry and issue times 120 s either side of the limits) and every single-bit flip of a valid token go through a real TOKEN handshake and through VerifyIDToken; every byte of each AKEP2 message is altered in transit (two substitutes), truncated at every 8th byte, extended, and the claimed client identity is replaced field-aware. Server success requires a valid token and unaltered client proofs, client success an unaltered server proof, and the recorded user is always the token subject.",
          "Framing-only alterations (end flag, bytes after the message) are recorded, not judged; the server-side path for a validly signed token without 'sub' is not reached because the real client refuses to send one.", "DESIGN.md §3 C11"),
+ "C16": ("exploration", "full-product enumeration of minting options; mint + import on the real code, entry-by-entry comparison, then a real resumption handshake in both directions; single-character secret corruption",
+         "E-ENUM", "Every combination of sinful shape (incl. embedded '#', brackets, parameters), Encryption/Integrity toggles, cipher list, ValidCommands, lifetime, version form, tag and connection direction: both cache entries must agree on id, key, policy and expiry; the public form must not contain the secret; the policy text must be a render/parse fixed point; the dialling side must resume (no negotiation ad on the wire) and exchange ping/pong both ways; an importer whose secret differs in one character must get no application message accepted in either direction.",
+         "8 (quick) / 64 (thorough) secret positions; tag axis reduced in quick.", "DESIGN.md §3 C16"),
 }
 PENDING = "check not built yet in this session (planned, DESIGN.md section 3); listed here until its check is registered"
 def main():
